@@ -55,7 +55,7 @@ Print Assumptions no_edge_to_removed.
 
 (* the whole text pipeline (cum cutoff, sort, top N, rebuilds, edge cutoff): whatever is shown is an
    entry of the untrimmed report with the same numbers *)
-Theorem text_report_nodes_unchanged : forall o pr n v, paths_stable o pr = true ->
+Theorem text_report_nodes_unchanged : forall o pr n v,
   In (n, v) (g_nodes (t_g (new_trimmed_text o pr))) -> In (n, v) (g_nodes (report_graph o (rebuild o pr) None)).
 Proof. exact text_report_nodes_unchanged_lemma. Qed.
 Print Assumptions text_report_nodes_unchanged.
@@ -80,11 +80,8 @@ Definition text_expected (o : ropts) (pr : prepared) : list (node_info * nval) :
   then (let top := filter (fun e => negb (abs64 (nv_cum (snd e)) <? 0)) (firstn (Z.to_nat (o_nodecount o)) sorted) in
         if Nat.eqb (List.length top) (List.length sorted) then sorted else top)
   else sorted.
-Definition text_removed_exactly_unconditional : Prop :=
-  forall o pr, g_nodes (t_g (new_trimmed_text o pr)) = text_expected o pr.
-(* outside F40 (see the end of this file) *)
 Definition full_statement_text_removed_exactly : Prop :=
-  forall o pr, paths_stable o pr = true -> g_nodes (t_g (new_trimmed_text o pr)) = text_expected o pr.
+  forall o pr, g_nodes (t_g (new_trimmed_text o pr)) = text_expected o pr.
 
 (* non-vacuity: removing the middle of a chain r -> m -> l keeps r and l unchanged, joins them by a
    residual edge of the full weight, and the direct edge r -> l of another sample is summed in *)
@@ -107,13 +104,13 @@ Theorem untrimmed_request_shows_all : forall o pr,
 Proof. exact untrimmed_request_lemma. Qed.
 Print Assumptions untrimmed_request_shows_all.
 
-(* ---- F40: the path clean-up of Report.newGraph is applied again on every rebuild and is not
-   idempotent when the base name of a source_path directory occurs twice in a file name
-   (/build/proj/w/proj/d/d.go with source_path=/home/me/proj: first "w/proj/d/d.go", then "d/d.go").
-   The kept set of the first build then no longer matches in the rebuild: an entry far above the
-   cutoff disappears.  [text_report_nodes_unchanged] carries the hypothesis [paths_stable]; the
-   "removed exactly" clause is refuted by this witness (found by the end-to-end stream). *)
-Definition f40_profile : profile :=
+(* ---- F42 (repaired in /repo 84fd0b7): the path clean-up of Report.newGraph used to run again on
+   every rebuild and is not idempotent when the base name of a source_path directory occurs twice
+   in a file name (/build/proj/w/proj/d/d.go with source_path=/home/me/proj: "w/proj/d/d.go", then
+   "d/d.go"), so the kept set of the first build no longer matched and an entry far above the cutoff
+   disappeared.  It now runs on the full-graph build only; the old witness is kept as a regression
+   example on which the "removed exactly" clause holds again (also an always-generated case). *)
+Definition f42_profile : profile :=
   {| p_sampletype := [{| vt_type := "cpu"; vt_unit := "count" |}]; p_defaultsampletype := "";
      p_sample := [ {| s_loc := [2; 1]; s_val := [70]; s_label := []; s_numlabel := []; s_numunit := [] |};
                    {| s_loc := [3; 1]; s_val := [1]; s_label := []; s_numlabel := []; s_numunit := [] |};
@@ -127,20 +124,11 @@ Definition f40_profile : profile :=
                      {| f_id := 3; f_name := "tiny"; f_sysname := "tiny"; f_file := "t.go"; f_startline := 0 |} ];
      p_comments := []; p_docurl := ""; p_dropframes := ""; p_keepframes := ""; p_timenanos := 0;
      p_durationnanos := 0; p_periodtype := None; p_period := 0 |}%string.
-Definition f40_opts : ropts :=
+Definition f42_opts : ropts :=
   mk_ropts "lines" false false "" false false false "" "" "text" false 0 6 0 "/home/me/proj" ""%string.
-Definition f40_prepared : prepared := snd (prepare (fun _ _ => ""%string) f40_opts f40_profile).
+Definition f42_prepared : prepared := snd (prepare (fun _ _ => ""%string) f42_opts f42_profile).
 
-Theorem text_removed_exactly_refuted : ~ text_removed_exactly_unconditional.
-Proof.
-  intros H. specialize (H f40_opts f40_prepared). vm_compute in H. discriminate H.
-Qed.
-Print Assumptions text_removed_exactly_refuted.
-
-(* the witness is in the class, and the class is not everything *)
-Example f40_in_class : paths_stable f40_opts f40_prepared = false.
-Proof. vm_compute. reflexivity. Qed.
-Example stable_paths_exist :
-  paths_stable (mk_ropts "lines" false false "" false false false "" "" "text" false 0 6 0 "/home/me/proj" "/build"%string)
-               f40_prepared = true.
-Proof. vm_compute. reflexivity. Qed.
+Example f42_regression :
+  g_nodes (t_g (new_trimmed_text f42_opts f42_prepared)) = text_expected f42_opts f42_prepared /\
+  List.length (g_nodes (t_g (new_trimmed_text f42_opts f42_prepared))) = 2%nat.
+Proof. vm_compute. split; reflexivity. Qed.
